@@ -8,7 +8,7 @@ lab = collections.Counter(); n=0; nt=0; fails=collections.Counter(); first={}
 t0=time.time()
 @seed(int(sys.argv[1]) if len(sys.argv)>1 else 1)
 @settings(max_examples=500, database=None, deadline=None, suppress_health_check=list(HealthCheck), phases=[Phase.generate])
-@given(m.strategy("quick"))
+@given(m.strategy(sys.argv[2] if len(sys.argv)>2 else "quick"))
 def go(case):
     global n, nt
     json.dumps(case)
